@@ -176,16 +176,21 @@ class WindowedBinaryAUROC(Metric[torch.Tensor]):
             Tensor: The return value of AUROC for each task (num_tasks,).
         """
 
-        if torch.all(self.inputs[:, self.next_inserted :] == 0):
+        if self.total_samples == 0:
+            # Nothing has been seen yet: evaluate the empty window, as before.
             return _binary_auroc_compute(
-                self.inputs[:, : self.next_inserted].squeeze(),
-                self.targets[:, : self.next_inserted].squeeze(),
-                self.weights[:, : self.next_inserted].squeeze(),
+                self.inputs[:, :0].squeeze(),
+                self.targets[:, :0].squeeze(),
+                self.weights[:, :0].squeeze(),
             )
-        else:
-            return _binary_auroc_compute(
-                self.inputs.squeeze(), self.targets.squeeze(), self.weights.squeeze()
-            )
+        # Slots that have not been filled yet (the initial buffers, the padding
+        # added by merge_state) hold weight 0, and a sample of weight 0 contributes
+        # nothing to the weighted AUROC.  So the whole buffer is always evaluated:
+        # a score that is exactly 0 is a legitimate sample, not the sign of an
+        # unfilled slot.  The task axis is kept (no squeeze), so a window holding
+        # a single sample, or `max_num_samples=1`, still yields one value per task.
+        auroc = _binary_auroc_compute(self.inputs, self.targets, self.weights)
+        return auroc[0] if self.num_tasks == 1 else auroc
 
     def reset(self: TAUROC) -> TAUROC:
         """
